@@ -61,7 +61,7 @@ def main():
     obls = mod.obligations(a.tier)
     if a.only:
         obls = [o for o in obls if a.only in o.name]
-    budget = a.budget or getattr(mod, 'BUDGET', {}).get(a.tier, 900 if a.tier == 'quick' else 3000)
+    budget = a.budget or getattr(mod, 'BUDGET', {}).get(a.tier, 800 if a.tier == 'quick' else 3000)
     deadline = t0 + budget
     open_ids, klines = run_findings(pid)
     for l in klines:
